@@ -23,6 +23,10 @@ CLAIMED = {
         text="Proof for Unpack, String and Unit of every datapoint type in package dpt (174 types, 522 functions, each under its own contract): no panic for any byte slice of any length and capacity; a payload whose length differs from the fixed length of the type's main number is rejected (28.001: fewer than 2 bytes); and on success the decoded value lies in the documented range (9.xxx bounds in bit-precise float32 arithmetic, 5.001 in [0,100], 5.003 in [0,360], time of day, calendar date 1990..2089 with the right month lengths, scene numbers). String/Unit: no panic for in-range values.",
         note="Assumes: go/ssa semantics, 64-bit int, SMT FloatingPoint theory = IEEE-754 binary32/64 with round-to-nearest-even as on amd64 (no FMA fusion), fmt.Sprintf/Errorf/errors.New return some string/non-nil error, time.Date normalises exactly the invalid civil dates (conformance test in the thorough tier), []rune/string conversions as abstract UTF-8 codecs. The 9.xxx range bounds in the contract file were read once from the documented ranges and frozen.",
         ref="§3 C08"),
+    "C16": dict(
+        text="Proof for TunnelSocket.Send and RouterSocket.Send (exactly one Write/WriteToUDP of a freshly allocated buffer of 6+Size bytes whose header length field equals the length written), for serveUDPSocket (one datagram read per iteration, at most one frame sent on inbound per datagram, inbound closed exactly once on every exit) and serveTCPSocket (at most one frame per iteration; every iteration that loops has advanced the ghost stream position — the receiver cannot spin; inbound closed exactly once), and for Tunnel.hostInfo (all-zero NAT endpoint unless a local address is to be sent over UDP).",
+        note="Assumes contracts for net.Conn.Write / (*net.UDPConn).WriteToUDP / ReadFromUDP (0 <= n <= len), bufio.Reader.Peek and io.ReadFull as a byte stream (ghost position), net.IP.Equal. Independence of TCP segmentation is inherited from that assumed byte-stream contract, it is not a result. Concurrent senders: freshness of the buffer is proved, atomicity of one Write is assumed. SupportedServicesDIB bounded to 5 families as in C15.",
+        ref="§3 C16"),
     "C03": dict(
         text="Proof of the transition contracts of the tunnel sender: requestTunnel (lock taken first and released on every path; every frame sent in the call is the same TunnelReq{channel, seq0 (0 on TCP), data}; TCP: exactly one send, no wait; UDP: success only with a received ack carrying seq0 and status 0 and then seqNumber == seq0+1; matching ack with error status fails and still advances; non-matching acks change nothing; ticker = ResendInterval, timeout = ResponseTimeout, each created once), handleTunnelRes (offers on conn.ack only for the connection's channel) and requestConn (resets the counter to 0 under the lock).",
         note="Sequential model of the environment (DESIGN §2.4.5): knxnet.Socket, channels, goroutines, mutexes, timers and container/list are environment operations with ghost logs (send log per socket, sent/received count and last value per channel, held flag per mutex, ghost clock); select may take any case, receives may yield any well-typed value or 'closed'; loop-free goroutines are run to completion in place (assumed: eventually scheduled), long-running workers are logged and verified separately. Holds for every sequence of environment choices, NOT for interleavings with other goroutines touching the same state (that is C10), nor for liveness/wall-clock claims.",
